@@ -78,7 +78,7 @@ class C05(Prop):
                "(passed to the model from the running interpreter)",
                "hash() as an uninterpreted symmetric function of the members' canonical keys"]
     partial = []
-    budget = {"quick": (8000, 2500), "thorough": (160000, 50000)}
+    budget = {"quick": (8000, 2500), "thorough": (130000, 50000)}
 
     # ------------------------------------------------------------ correspondence
     def gen_cases(self, rng, n):
